@@ -25,7 +25,7 @@ TECHNIQUE = (
 RULE = (
     "state = bytes and mtimes of the ebuild, the eclass copies (master/overlay) and the cache entry file (exact, used for "
     "de-duplication). Events: read; edit ebuild; touch ebuild; edit eclass; move eclass between master and overlay; remove "
-    "eclass + un-inherit; strip INHERIT from the entry; corrupt the entry's recorded ebuild checksum; poison a cached value "
+    "eclass + un-inherit; remove eclass only; strip INHERIT from the entry; corrupt the entry's recorded ebuild checksum; poison a cached value "
     "(thorough adds: touch eclass; shadow the master eclass by a different overlay copy / remove the shadow; corrupt the "
     "recorded eclass checksum; edit the ebuild without changing its mtime (md5 backend)). Every history starts with a read that populates "
     "the cache, and every visited state ends with a probe read. Reference: the entry is valid iff it exists, its recorded "
@@ -37,20 +37,21 @@ RULE = (
 ASSUMPTIONS = [
     "Excl: an otherwise valid entry that records eclasses but lacks INHERIT may be used or regenerated (pkgcore regenerates to upgrade the entry; the statement's first sentence does not mention it) -- both outcomes are accepted and followed",
     "Excl: flat (mtime) backend + content edits that keep the mtime (undetectable by the statement's own criterion)",
-    "Excl: removing an eclass that the ebuild still inherits (regeneration cannot succeed; what happens to the entry is unspecified)",
+    "Excl: after removing an eclass that the ebuild still inherits the read must fail like the cacheless read does (returning the stale entry is a violation); what the failed regeneration leaves in the cache is unspecified, so such states are probed but not extended",
     "one package inheriting at most one eclass `e`; two stacked repositories; cache backends flat_hash.database and flat_hash.md5_cache only",
     "mtimes are whole seconds set explicitly by the harness; no wall-clock time enters the oracle",
     "from-scratch metadata is produced by the real daemon through a cacheless UnconfiguredTree on the same files and memoised by file contents (it depends on nothing else)",
 ]
 BOUNDS = {
-    "quick": "2 backends x all histories of <= 3 events over the 9-event alphabet (after the populating read), every state probed by a read",
-    "thorough": "2 backends x (all histories of <= 4 events over the 9-event alphabet + all histories of <= 3 events over the 14-event alphabet)",
+    "quick": "2 backends x all histories of <= 3 events over the 10-event alphabet (after the populating read), every state probed by a read",
+    "thorough": "2 backends x (all histories of <= 4 events over the 10-event alphabet + all histories of <= 3 events over the 15-event alphabet)",
 }
 
 T0 = 1_600_000_000
-EV_QUICK = ["R", "Eb", "Tb", "Ec", "Mv", "Rm", "Si", "Cc", "Po"]
+EV_QUICK = ["R", "Eb", "Tb", "Ec", "Mv", "Rm", "Rx", "Si", "Cc", "Po"]
 EV_EXTRA = ["Te", "Sh", "Us", "Ce", "Eb0"]
 BACKENDS = ["md5", "flat"]
+TIME_CAP = {"thorough": 1500}
 
 
 # ----------------------------------------------------------------------------------------------- file contents
@@ -199,11 +200,19 @@ class World:
         eclasses = {name: getattr(v, "path", None) for name, v in dict(ecl).items()}
         return meta, eclasses
 
+    def broken(self):
+        """the ebuild inherits an eclass that exists nowhere: metadata cannot be generated"""
+        return self.eb["inherits"] and self.effective_eclass() is None
+
     def fresh(self, memo):
+        """("ok", meta, eclasses) or ("error", text): what a cacheless read of the current files gives"""
         k = self.content_key()
         if k not in memo:
             self.regens += 1
-            memo[k] = self.real_read(False)
+            try:
+                memo[k] = ("ok",) + self.real_read(False)
+            except Exception as e:  # noqa: BLE001
+                memo[k] = ("error", f"{type(e).__name__}: {str(e)[:160]}")
         return copy.deepcopy(memo[k])
 
     # ---- independent reader of the entry file (flat_hash format: KEY=value lines)
@@ -243,14 +252,26 @@ class World:
         was_valid = self.entry_valid()
         lacks_inherit = self.entry is not None and self.entry["ecl"] is not None and not self.entry["has_inherit"]
         stored = copy.deepcopy(self.entry["meta"]) if self.entry else None
+        fresh = self.fresh(memo)
         try:
             got_meta, got_ecl = self.real_read(True)
+            got_err = None
         except Exception as e:  # noqa: BLE001
-            msgs.append(f"read raised {type(e).__name__}: {str(e)[:200]}")
+            got_err = f"{type(e).__name__}: {str(e)[:200]}"
+        if fresh[0] == "error":
+            # the recorded eclass is gone and the ebuild still inherits it: like the cacheless read, the read has to fail
+            if got_err is None:
+                how = "the stored (stale) metadata" if got_meta == stored else f"{got_meta}"
+                msgs.append(f"inherited eclass no longer exists ({self.why_invalid()}); a cacheless read fails ({fresh[1][:80]}) but the read returned {how}")
             self.msgs = msgs
             self.last = "error"
             return
-        fresh_meta, fresh_ecl = self.fresh(memo)
+        if got_err is not None:
+            msgs.append(f"read raised {got_err}")
+            self.msgs = msgs
+            self.last = "error"
+            return
+        _ok, fresh_meta, fresh_ecl = fresh
         if was_valid and not lacks_inherit:
             outcome = "used"
             if got_meta != stored:
@@ -311,12 +332,14 @@ class World:
     def enabled(self, events):
         out = []
         eff = self.effective_eclass()
+        if self.broken():
+            return out  # Excl: what a failed regeneration leaves behind is unspecified -> terminal state (it is still probed)
         for ev in events:
             if ev in ("R", "Eb", "Tb"):
                 ok = True
             elif ev == "Eb0":
                 ok = self.backend == "md5"
-            elif ev in ("Ec", "Te", "Rm"):
+            elif ev in ("Ec", "Te", "Rm", "Rx"):
                 ok = self.eb["inherits"] and eff is not None
             elif ev == "Mv":
                 ok = self.eb["inherits"] and eff is not None and (self.ecl["m"] is None or self.ecl["o"] is None)
@@ -368,6 +391,8 @@ class World:
             self.ecl = {"m": None, "o": None}
             self.eb["inherits"] = False
             self.eb["mtime"] = self.tick()
+        elif ev == "Rx":
+            self.ecl = {"m": None, "o": None}
         elif ev == "Si":
             self.entry["meta"].pop("INHERIT")
             self.entry["has_inherit"] = False
@@ -484,7 +509,7 @@ class Explorer:
         msgs += [f"probe read: {m}" for m in w.msgs]
         probe_outcome = w.last
         # and once more: whatever the probe stored must now be served from the cache
-        if not w.msgs:
+        if not w.msgs and w.last != "error":
             w.read(self.memo_fresh)
             self.reads += 1
             if w.last != "used" and not w.msgs:
